@@ -80,6 +80,21 @@ func runC02(t *testing.T, seed uint64, m *Mask) *Report {
 			ops[r.Intn(len(ops))].Data = world.GenString(r, int(opt.Limit)+r.Intn(600), "abcdefghij")
 		}
 	}
+	// a maximum session age on one side (set in a connection hook, as documented): a read deadline on the
+	// simulated clock that runs out while calls are in flight - the reader gives up on an intact connection
+	ageSide, ageD := "", time.Duration(0)
+	if r.Chance(0.15) {
+		ageSide = []string{"cli", "srv"}[r.Intn(2)]
+		if hostile {
+			ageSide = "cli"
+		}
+		ageD = time.Duration(10+r.Intn(240)) * time.Millisecond
+		for _, op := range ops {
+			if r.Chance(0.6) {
+				op.HSleep = time.Duration(r.Intn(90)) * time.Millisecond
+			}
+		}
+	}
 	shared := r.Chance(0.5)
 	fault := c02Faults[r.Intn(len(c02Faults))]
 	if hostile {
@@ -99,7 +114,7 @@ func runC02(t *testing.T, seed uint64, m *Mask) *Report {
 		fault = "none"
 	}
 	rep := &Report{NOps: len(ops), NFaults: nFaults}
-	rep.Cell = fmt.Sprintf("%s,hostile=%v,fault=%s,dial=%v,limit=%d", proto, hostile, fault, dial, opt.Limit)
+	rep.Cell = fmt.Sprintf("%s,hostile=%v,fault=%s,dial=%v,limit=%d,age=%s", proto, hostile, fault, dial, opt.Limit, ageSide)
 
 	out := world.Run(t, opt, func(e *world.Env) {
 		for _, op := range ops {
@@ -112,7 +127,14 @@ func runC02(t *testing.T, seed uint64, m *Mask) *Report {
 		pf := world.ProtoFunc(proto)
 		// the caller may be slow before and after its frame is written (a slow plugin): reply arrival, close and
 		// loss can then land while a call is still being launched
-		cli := e.NewPeer("cli", erpc.PeerConfig{}, &world.Slow{Env: e, P: []float64{0, 0, 0.3, 0.8}[e.Gen.Intn(4)], PostLaunch: true, PreLaunch: true})
+		ageCli, ageSrv := &world.AgeHook{Sticky: true}, &world.AgeHook{Sticky: true}
+		switch ageSide {
+		case "cli":
+			ageCli.Next = ageD
+		case "srv":
+			ageSrv.Next = ageD
+		}
+		cli := e.NewPeer("cli", erpc.PeerConfig{}, ageCli, &world.Slow{Env: e, P: []float64{0, 0, 0.3, 0.8}[e.Gen.Intn(4)], PostLaunch: true, PreLaunch: true})
 		var srv erpc.Peer
 		var rt world.Routes
 		var sa, sb erpc.Session
@@ -129,7 +151,7 @@ func runC02(t *testing.T, seed uint64, m *Mask) *Report {
 				return
 			}
 		} else {
-			srv = e.NewPeer("srv", erpc.PeerConfig{})
+			srv = e.NewPeer("srv", erpc.PeerConfig{}, ageSrv)
 			rt = e.RegisterStd(srv)
 			if dial {
 				e.Serve(srv, "10.9.0.1:9000", pf)
@@ -257,6 +279,12 @@ func runC02(t *testing.T, seed uint64, m *Mask) *Report {
 		if sa != nil && !sa.Health() {
 			if n := erpc.VerifPendingCalls(sa); n != 0 {
 				e.Fail("C02/pending-calls-on-dead-session", "session is down but still holds %d pending calls", n)
+			}
+		}
+		if ageCli.Marked+ageSrv.Marked > 0 {
+			e.Net.Fault("session_age")
+			if sa != nil && !sa.Health() {
+				e.Probe("session-ended-by-age-or-fault")
 			}
 		}
 		if fault != "none" && e.Net.St.Faults != nil {
